@@ -32,9 +32,10 @@ judged by the forward simulator O3. Families: tw (line metric, every location se
 windows, shift end = return + {0,1,3}, candidate windows ending at arrival-1/arrival/arrival+1 for every target leg, waiting candidates, \
 two-window and two-place candidates in both orders), cap (every delivery/pickup/pickup-delivery-pair sequence with sizes 1..2, capacity = peak + {0,1,2}, \
 candidate sizes 1..3 of every kind incl. pickup-delivery), pd (pickup-delivery candidates with boundary windows), rand (seeded: metric grid, \
-mixed static/dynamic demand, decoy windows/places, up to 8 activities). A (tour, job) pair is DISTINCT by its literal content and NON-TRIVIAL when \
+mixed static/dynamic demand, decoy windows/places, up to 8 activities; 30 % of the tours on a vehicle with tour limits - distance, duration, \
+size, mostly two or three together - set to what the tour uses + {0,0,1,2,3,5,10,30}). A (tour, job) pair is DISTINCT by its literal content and NON-TRIVIAL when \
 O3 finds it feasible at some but not all positions, or when the simulated tour after an accepted insertion touches a boundary \
-(arrival == window end, return == shift end, load == capacity, waiting).";
+(arrival == window end, return == shift end, load == capacity, distance / duration / size == its limit, waiting).";
 
 #[derive(Clone, Copy, Debug, PartialEq, Eq)]
 enum Pos {
@@ -85,6 +86,9 @@ fn code_name(code: i32) -> &'static str {
     match code {
         CODE_TIME => "time",
         CODE_CAPACITY => "capacity",
+        CODE_MAX_DISTANCE => "max-distance",
+        CODE_MAX_DURATION => "max-duration",
+        CODE_TOUR_SIZE => "tour-size",
         -1 => "unknown",
         _ => "other",
     }
@@ -133,6 +137,18 @@ fn boundary_tags(spec: &MicroSpec, route: &RouteSpec, visits: &[Visit], position
     }
     if rep.peak_load == veh.capacity {
         acc.see("boundaries", "peak-load==capacity");
+        hit = true;
+    }
+    if veh.max_distance == Some(rep.distance) {
+        acc.see("boundaries", "distance==max-distance");
+        hit = true;
+    }
+    if veh.max_duration == Some(rep.duration) {
+        acc.see("boundaries", "duration==max-duration");
+        hit = true;
+    }
+    if veh.tour_size == Some(visits.len()) {
+        acc.see("boundaries", "activities==tour-size");
         hit = true;
     }
     if veh.end_loc.is_none() && !route.visits.is_empty() && positions.last() == Some(&(visits.len() - 1)) {
@@ -226,6 +242,13 @@ fn check_case(run: &Run, case: &Case, origin: &'static str, case_seed: Option<u6
     acc.see("origin", origin);
     acc.see("tour_size", &n.to_string());
     acc.see("vehicle", &format!("{veh_class}{}", if veh.end_time.is_some() { "+shift-end" } else { "" }));
+    if veh.has_limits() {
+        let which: Vec<&str> = [("distance", veh.max_distance.is_some()), ("duration", veh.max_duration.is_some()), ("size", veh.tour_size.is_some())]
+            .iter()
+            .filter_map(|(n, on)| on.then_some(*n))
+            .collect();
+        acc.see("limits", &format!("tour-with-limits:{}", which.join("+")));
+    }
 
     for &cand in case.candidates.iter() {
         let job_spec = &spec.jobs[cand];
@@ -346,6 +369,11 @@ fn check_case(run: &Run, case: &Case, origin: &'static str, case_seed: Option<u6
                         continue;
                     }
                     match pos {
+                        // the completeness clause is stated for jobs constrained by time windows, shift times and capacity: with tour
+                        // limits (whose duration test is a deliberately conservative estimate) a Failure is observed, not judged
+                        Pos::Any if veh.has_limits() => {
+                            acc.see("limits", if feasible.is_empty() { "any-failure/oracle-none" } else { "any-failure/oracle-some(not judged)" });
+                        }
                         Pos::Any => {
                             if !feasible.is_empty() {
                                 let class = false_failure_class(spec, route, cand, &feasible);
@@ -430,6 +458,9 @@ fn vehicle(closed: bool, capacity: i32) -> VehicleSpec {
         fixed: 0.,
         per_distance: 1.,
         per_time: 0.,
+        max_distance: None,
+        max_duration: None,
+        tour_size: None,
     }
 }
 
@@ -669,6 +700,7 @@ fn random_cfg(rng: &mut Rng) -> GenCfg {
         multi_share: 0.3,
         layers: if rng.chance(0.5) { vec![Layer::Unassigned, Layer::Distance] } else { vec![Layer::Cost, Layer::Unassigned] },
         priced: false,
+        p_limits: 0.3,
     }
 }
 
@@ -698,6 +730,7 @@ fn main() {
     }
     run.assume("O3 semantics: arrival = previous departure + travel; service starts at max(arrival, window start); infeasible iff arrival > window end, return to a closed end after the shift end, load outside [0, capacity] or a dynamic delivery before its pickup");
     run.assume("the vehicle's latest departure equals its earliest one (VehicleDetailBuilder::set_start_time): no departure-time shift is possible, and the evaluator itself never shifts departures");
+    run.assume("tour limits (30 % of the random tours): O3 takes distance = sum of the leg distances incl. the return of a closed tour, duration = end of the tour (return, or last departure of an open tour) - departure, size = number of job activities; only soundness is judged on such vehicles (the completeness clause names time windows, shift times and capacity only; the evaluator's duration test is a conservative estimate)");
     run.assume("open vehicles have no shift end (vrp-core derives the actor's time end from the end place only)");
     run.assume("activities already in the tour keep the place and window chosen for them (part of the state); only the inserted job's places/windows are enumerated by the oracle");
     run.assume("jobs under evaluation are in `required`, never in `unassigned` with a concrete code; routing is metric, time independent and integer valued (all sums exact)");
@@ -738,6 +771,16 @@ fn main() {
         "rejected-one-time-unit-late",
     ] {
         run.floor(&format!("boundary {b}"), run.observed("boundaries", b), 100);
+    }
+    for b in ["distance==max-distance", "duration==max-duration", "activities==tour-size"] {
+        run.floor(&format!("boundary {b}"), run.observed("boundaries", b), 20);
+    }
+    for l in ["tour-with-limits:distance+duration", "tour-with-limits:distance+duration+size", "tour-with-limits:duration", "tour-with-limits:distance", "tour-with-limits:size"] {
+        run.floor(&format!("cases on a {l}"), run.observed("limits", l), 50);
+    }
+    for code in ["max-distance", "max-duration", "tour-size"] {
+        let rejected: u64 = run.observed_keys("results").iter().filter(|k| k.ends_with(&format!("/failure/{code}"))).map(|k| run.observed("results", k)).sum();
+        run.floor(&format!("evaluations rejected with the {code} code"), rejected, 20);
     }
     for r in ["single/concrete/success", "single/any/success", "multi/any/success", "multi/concrete/success", "single/last/success"] {
         run.floor(&format!("result {r}"), run.observed("results", r), 100);
